@@ -38,7 +38,7 @@ def workdir(tag):
 
 
 def compile_ir(src_path, cfg, out_path, timeout=600):
-    cmd = ['clang++-14'] + cfg.ir_flags() + ['-S', '-emit-llvm', '-o', out_path, src_path]
+    cmd = ['clang++-14'] + cfg.ir_flags() + ['-ferror-limit=0', '-S', '-emit-llvm', '-o', out_path, src_path]
     t = time.time()
     p = subprocess.run(cmd, capture_output=True, text=True, timeout=timeout)
     return p.returncode == 0, p.stderr, cmd, time.time() - t
